@@ -99,7 +99,7 @@ func genC05(g *Gen) *Plan {
 	cfg.Servers[0].CompressMinLength = minLen
 	cfg.Servers[0].CompressContentTypeFilter = pick(g, "", "", "text|json", "image", "json")
 	if g.p(0.6) {
-		cfg.Compresses = []CompressCfg{{Name: "cp", Levels: map[string]uint{"gzip": uint(pick(g, 0, 1, 6, 9, 12)), "br": uint(pick(g, 0, 1, 6, 11, 12))}}}
+		cfg.Compresses = []CompressCfg{{Name: "cp", Levels: map[string]uint{"gzip": uint(pick(g, 0, 1, 6, 9, 10, 11, 12)), "br": uint(pick(g, 0, 1, 6, 11, 12))}}}
 		cfg.Servers[0].Compress = "cp"
 	}
 	if g.p(0.3) {
